@@ -142,7 +142,7 @@ def rules_c01(ctx):
     G = p_segmentation
     return (S.rule_range_form(ctx, 'pgm', ctx.units) + S.rule_agree_eps(ctx, 'pgm', ctx.units) + S.rule_clamp(ctx, 'pgm', ctx.units) +
             S.rule_kind_pgm(ctx, ctx.units) + S.rule_keydiff_type(ctx, ctx.units) +
-            [o for o in G.rule_rank_agree(ctx) if o.rule == 'RANK-AGREE'] + G.rule_index_cover(ctx) + [o for o in G.rule_omp_order(ctx) if o.arm == 'last-chunk'] + G.rule_key_arith(ctx) + S.rule_upper_level_sentinel(ctx, 'pgm', ctx.units))
+            [o for o in G.rule_rank_agree(ctx) if o.rule == 'RANK-AGREE'] + G.rule_index_cover(ctx) + [o for o in G.rule_omp_order(ctx) if o.arm == 'last-chunk'] + G.rule_key_arith(ctx) + S.rule_upper_level_sentinel(ctx, 'pgm', ctx.units) + G.rule_model_per_call(ctx))
 
 
 def rules_c02(ctx):
@@ -150,7 +150,7 @@ def rules_c02(ctx):
     return (S.rule_cap(ctx, 'pgm', ctx.units, fnames=('search', 'segment_for_key')) + [o for o in S.rule_range_form(ctx, 'pgm', ctx.units)] +
             p_segmentation.rule_closing(ctx) + [o for o in p_segmentation.rule_rank_agree(ctx) if o.rule == 'GAP-GUARD' or o.arm in ('gap', 'closing')] +
             p_segmentation.rule_key_arith(ctx) + [o for o in p_segmentation.rule_omp_order(ctx) if o.arm == 'last-chunk'] + p_segmentation.rule_seam(ctx) +
-            S.rule_conv_range(ctx, 'pgm', ctx.all_units()))
+            S.rule_conv_range(ctx, 'pgm', ctx.all_units()) + p_segmentation.rule_model_per_call(ctx))
 
 
 def rules_c07(ctx):
@@ -159,7 +159,10 @@ def rules_c07(ctx):
     # width of `estimate + intercept` matter for the work bound as they do for the returned range
     return ([o for o in S.rule_agree_eps(ctx, 'pgm', ctx.units) if 'recursive' in o.arm] + S.rule_window_form(ctx, 'pgm', ctx.units) +
             S.rule_conv_range(ctx, 'pgm', ctx.units) + S.rule_cap(ctx, 'pgm', ctx.units, fnames=('segment_for_key',)) +
-            [o for o in p_segmentation.rule_closing(ctx) if o.rule == 'SENTINEL' and str(o.arm).endswith('upper')])
+            [o for o in p_segmentation.rule_closing(ctx) if o.rule == 'SENTINEL' and str(o.arm).endswith('upper')] +
+            # the estimate of every level is computed by Segment::operator(): a key difference that overflows gives an estimate far
+            # from the responsible segment, and the forward scan then walks more than EpsilonRecursive + 2 segments
+            S.rule_keydiff_type(ctx, ctx.units) + p_segmentation.rule_model_per_call(ctx))
 
 
 def rules_c08(ctx):
@@ -216,6 +219,7 @@ PROPS['C07'] = {
         'AGREE-EPS-REC: upper levels are segmented with EpsilonRecursive (the call inside build()\'s level loop passes epsilon_recursive, whose source is the template parameter)',
         'WINDOW-FORM: per level lo = level_begin + SUB(pos, EpsilonRecursive+1); in the binary-search arm hi = level_begin + ADD(pos, EpsilonRecursive, level_size) with level_size the size of the searched level: at most 2*EpsilonRecursive+3 segments are inspected in that arm',
         'CAP / SENTINEL (upper levels): the position handed to the next level down is min(model, intercept of the successor segment), and the terminator segments that close an upper level carry the size of the level below as intercept (decided on build() with all local closures inlined, with a reaching-definitions check that the size is not reassigned between the segmentation and the push) - otherwise the cap collapses the prediction through the last segment of a level and the scan restarts far from the responsible segment',
+        'TYPE / AGREE-EPS model-per-call: the key difference inside Segment::operator() cannot overflow (an estimate computed from a wrapped difference is far from the responsible segment and the forward scan walks the difference), and the model of the segmentation driver is constructed from the epsilon of each call',
     ],
     'not_decided': 'the bound for the linear-scan arm (the loop runs until found; its length is the numeric epsilon guarantee) and the per-level size bound',
     'explanation': 'Clause-level static claim for C07: the two regressions the property names (wrong epsilon for an upper level, widened window) change these forms.',
@@ -393,6 +397,7 @@ PROPS['C04'] = {
         'REJECT-ONLY-GEOMETRIC: `return false` of add_point depends only on the two cut comparisons (never on a counter, size or index)',
         'GEOM-GUARDS: the cut tests are the strict comparisons p1-r[2] < r[2]-r[0] and p2-r[3] > r[3]-r[1] (a non-strict test cuts segments that could be extended), the tightening tests are strict likewise',
         'SLOPE-ORDER: Slope::operator< / > / == / != are exactly their own relation on the cross products, so the strict tests of add_point are strict',
+        'CHUNK-COUNT: the parallel builder cuts the data into exactly `parallelism` chunks (the bound of the parallel loop is that variable; a bound that evaluates to more on a concrete (n, parallelism) is refuted by that witness)',
     ],
     'not_decided': 'that outside_line1/2 are exactly infeasibility (needs the convex-hull invariant), the segment-count bounds: value-level',
     'explanation': 'Clause-level static claim for C04: any additional cut, or a rejection that depends on something other than the geometric test, yields a non-maximal segment for some input while every test still passes.',
@@ -419,7 +424,7 @@ PROPS['C18'] = {
     'decides': [
         'WRAPPER-AGREE: PGMWrapper::search satisfies RANGE-FORM / CLAMP / CAP with E = the run-time epsilon field, which is initialised from the same constructor parameter that reaches the level-0 segmentation (from the extern "C" create function); EPSILON_RECURSIVE passed to build equals the EpsilonRecursive of the inherited routing code; the constructor establishes n, first_key, segments, levels_offsets like PGMIndex(first, last)',
         'FORWARD: each of the 16 static and 52 dynamic extern "C" functions reaches exactly the named C++ operation on its index argument with its own parameters in order; _find writes *value (and returns true) only under it != end(); _iterator_next tests end() before any dereference and reads key/value before advancing',
-        'EXC-BOUNDARY: every _create has its new inside a try whose handler catches std::invalid_argument and returns nullptr',
+        'EXC-BOUNDARY: every _create has its new inside a try whose handler catches std::invalid_argument and returns nullptr; the rejection of a reserved last key that this turns into NULL is thrown inside PGMIndex::build(), which the wrapper calls directly (not in a constructor the wrapper never runs)',
     ],
     'not_decided': 'the behaviour of the wrapped classes themselves (C01/C02/C05/C06)',
     'explanation': 'Clause-level static claim for C18 on c-interface/cpgm.cpp analysed as built (macro-generated functions are analysed after expansion).',
